@@ -485,6 +485,9 @@ func genCluster(seed uint64, tier, variant string) any {
 		}
 		p.Tasks = append(p.Tasks, calls)
 	}
+	if mode == "helpers2" && r.IntN(4) == 0 {
+		p.Opt.DisableCache = true // the cached helpers must then behave like their plain counterparts
+	}
 	if cl.Cancel {
 		cl.SendBuf = pick(r, 64, 256, 1024)
 		p.Opt.WriteBuf = pick(r, 32, 64, 512)
